@@ -890,7 +890,11 @@ impl FileScheduler {
                 let orig_range = &request[orig_index];
                 let byte_offset = updated_range.start as usize;
 
-                if is_overlapping(updated_range, orig_range) {
+                if orig_range.is_empty() {
+                    // An empty range overlaps nothing but still gets its (empty) buffer
+                    final_bytes.push(Bytes::new());
+                    orig_index += 1;
+                } else if is_overlapping(updated_range, orig_range) {
                     // We need to undo the coalescing and splitting done earlier
                     let start = orig_range.start as usize - byte_offset;
                     if orig_range.end <= updated_range.end {
